@@ -262,6 +262,7 @@ def r14_2(run):
 
 
 _ARR_MAKERS = ("asarray", "array", "copy", "ascontiguousarray", "full_like", "ones_like", "zeros_like", "empty_like", "full", "zeros", "ones", "empty")
+_ARR_ALWAYS = ("select", "concatenate", "stack", "broadcast_to")
 _ARR_METHODS = ("astype", "reshape", "copy", "view", "transpose", "squeeze")
 
 
@@ -290,6 +291,8 @@ def _scalar_leak(cfg, e: ast.AST, at: int, seen) -> Optional[ast.AST]:
         d = dotted(e.func) or ""
         if d.split(".")[0] in ("np", "numpy") and d.split(".")[-1] in _ARR_MAKERS:
             return None
+        if d.split(".")[0] in ("np", "numpy") and ((d.split(".")[-1] == "where" and len(e.args) == 3) or d.split(".")[-1] in _ARR_ALWAYS):
+            return None  # three-argument where / select / joins allocate an ndarray even for 0-d operands
         if isinstance(e.func, ast.Attribute) and e.func.attr in _ARR_METHODS and not d.startswith(("np.", "numpy.")):
             return _scalar_leak(cfg, e.func.value, at, seen)
         if d.endswith("grad_post_process_fn") and e.args:
